@@ -1,5 +1,5 @@
 # replay of a bounded stand-in violation (C11): re-run native/c11_compilers.py
 import sys
-print("passive n=4 modes=[2, 1] gates=[('BSgate', (2, 1)), ('BSgate', (1, 2)), ('Rgate', (1,)), ('BSgate', (2, 1)), ('BSgate', (2, 1)), ('Fouriergate', (1,)), ('Fouriergate', (2,)), ('Rgate', (1,)), ('BSgate', (2, 1)), ('BSgate', (2, 1)), ('LossChannel', (2,))]: compile raised CircuitError: The operation Fouriergate cannot be used with the compiler 'passive'.")
+print("gaussian_merge n=4 gates=[('S2gate', (1, 0)), ('Dgate', (0,)), ('Sgate', (2,)), ('Rgate', (3,)), ('Vgate', (1,)), ('Dgate', (2,)), ('Rgate', (3,)), ('Rgate', (2,)), ('BSgate', (1, 3)), ('Kgate', (1,)), ('Dgate', (3,)), ('Kgate', (1,)), ('Sgate', (0,)), ('Sgate', (3,))]: with the opaque gates interpreted as fixed unitaries the compiled program [('GaussianTransform', [0, 1]), ('GaussianTransform', [2]), ('Dgate', [0]), ('Kgate', [1]), ('Dgate', [2]), ('Vgate', [1]), ('Kgate', [1]), ('GaussianTransform', [1, 3]), ('Dgate', [3]), ('MeasureFock', [0, 1, 2, 3])] computes something else (max difference 1.27)")
 print('REPLAY-VIOLATION')
 sys.exit(1)
